@@ -32,26 +32,26 @@ def parsePair (w : String) (sep : String) : Option (String × String) :=
   | [a, b] => some (a, b)
   | _ => none
 
-def parseFieldMeta (w : String) : Option (FieldId × FieldType) := do
+def parseFieldMeta (w : String) : Option (Nat × FieldType) := do
   let (a, b) ← parsePair w ":"
   let id ← a.toNat?
   let c ← b.toNat?
   let ty ← FieldType.ofCode? c
   some (id, ty)
 
-def parseSlotVal (w : String) : Option (Slot × Int) := do
+def parseSlotVal (w : String) : Option (Nat × Int) := do
   let (a, b) ← parsePair w "="
   let t ← a.toNat?
   let v ← b.toInt?
   some (t, v)
 
-def parseFieldEntry (w : String) : Option (FieldId × List (Slot × Int)) := do
+def parseFieldEntry (w : String) : Option (Nat × List (Nat × Int)) := do
   let (a, b) ← parsePair w "@"
   let id ← a.toNat?
   let vals ← (splitNE b ",").mapM parseSlotVal
   some (id, vals)
 
-def parseSeries (w : String) : Option (SeriesId × List (FieldId × List (Slot × Int))) :=
+def parseSeries (w : String) : Option (Nat × List (Nat × List (Nat × Int))) :=
   match w.splitOn "/" with
   | [] => none
   | sid :: fes => do
@@ -81,7 +81,7 @@ def parseEntry (w : String) : Option (Nat × Blk) :=
 def sortNat (l : List Nat) : List Nat := (l.toArray.qsort (· < ·)).toList
 def sortStr (l : List String) : List String := (l.toArray.qsort (· < ·)).toList
 
-def showFields (fs : List (FieldId × FieldType)) : String :=
+def showFields (fs : List (Nat × FieldType)) : String :=
   ",".intercalate (fs.map (fun (f, ty) => s!"{f}:{ty.code}"))
 
 /-- canonical text of a block: per series the fields (in the block's field order) that have at
